@@ -101,6 +101,7 @@ type HandlerObs struct {
 	HdrErrs  []string  `json:"hdrerrs"` // result of each sethdr/sendhdr step ("" = ok)
 	MD       MD        `json:"md"`
 	Deadline int64     `json:"deadline"` // ms until deadline at entry, -1 none
+	HasDL    bool      `json:"hasdl"`
 	Method   string    `json:"method"`
 }
 type StatusObs struct {
@@ -419,6 +420,7 @@ func (e *rpcEnv) enter(ctx context.Context, full string) {
 	e.h.Deadline = -1
 	if dl, ok := ctx.Deadline(); ok {
 		e.h.Deadline = time.Until(dl).Milliseconds()
+		e.h.HasDL = true
 	}
 }
 
